@@ -4,7 +4,7 @@ import GoUefi.Gen
   Line-protocol operations that run the TRANSLATED code (`GoUefi/Gen.lean`, regenerated from the Go
   source by tools/go2lean) on the inputs of the correspondence harness, and answer in exactly the
   format of the hand-written model's operations (`sigdb.read`, `sigdb.ops`, `auth.read`,
-  `wincert.read`).  The harness compares the two answers: this validates the translator (and the
+  `wincert.read`, `var.sign`).  The harness compares the two answers: this validates the translator (and the
   abstraction the refinement theorems use) on every generated case.  Part of the `gendriver`
   executable only, so that a source change the translator cannot handle does not take the model
   driver down with it.
@@ -156,6 +156,28 @@ def genOpsStep (E : Ext) (st : GenOpsState) (op : String) : GenOpsState × Strin
     else (⟨db', st.held⟩, o)
   | _ => (st, "bad-op")
 
+/-- `gen.varsign`: runs the TRANSLATED `signature.SignEFIVariable` on a variable (name, vendor GUID in wire
+    form, attributes), a payload object that appends `payload` at both call sites, the clock value `tm`
+    (16 wire bytes, as observed in the real library's output) and the bare SignedData `sd` that the real
+    `SignPKCS7`/`ParseContentInfo` produced.  The translated function is run twice: with externals that hand
+    the buffer given to `SignPKCS7` back as the signature (so the signed buffer becomes observable), and with
+    externals that return `sd`.  Answer: `ok <returned bytes> buf=<signed buffer>` — the format of the
+    model's `var.sign`, which the harness compares with the real library's output and with the buffer that
+    an independent verifier accepted. -/
+def genVarSign (name guid attrs tm payload sd : String) : String :=
+  match String.fromUTF8? (ByteArray.mk (unhex name).toArray) with
+  | none => "skip name-not-utf8"   -- a Go string that is not valid UTF-8 is outside the translation's model
+  | some nm =>
+    let pl := unhex payload
+    let v : efivar.Efivar := ⟨nm, gOfWire (unhex guid), UInt32.ofNat (natArg attrs)⟩
+    let m : efivar.Marshallable := ⟨fun _ => pl, fun _ b => b ++ pl⟩
+    let clock := decLE_util_EFITime (unhex tm)
+    let X1 : signature.Externals := ⟨clock, fun _ _ _ buf => (buf, none), fun der => ([], [], der, none)⟩
+    let X2 : signature.Externals := ⟨clock, fun _ _ _ buf => (buf, none), fun _ => ([], [], unhex sd, none)⟩
+    let r1 := signature.SignEFIVariable X1 v m ⟨0⟩ ⟨[], [], [], 0⟩
+    let r2 := signature.SignEFIVariable X2 v m ⟨0⟩ ⟨[], [], [], 0⟩
+    s!"ok {hex r2.2.1} buf={hex r1.1.AuthInfo.CertData}"
+
 def handleGen (op : String) (args : List String) : Option String :=
   match op, args with
   | "gen.sigdb.read", [h] =>
@@ -204,6 +226,7 @@ def handleGen (op : String) (args : List String) : Option String :=
     -- BytesToGUID then GUIDToBytes / CmpEFIGUID with itself
     let g := util.BytesToGUID (unhex h)
     some s!"{hex (util.GUIDToBytes g)} {util.CmpEFIGUID g g}"
+  | "gen.varsign", [name, guid, attrs, tm, payload, sd] => some (genVarSign name guid attrs tm payload sd)
   | "gen.skipped", [] => some (toString (skipped.map (·.1)))
   | _, _ => none
 
